@@ -65,6 +65,7 @@ def check_program(ctx, prog, layout, offsets, scratch, roles=QUERY_ROLES):
         by_pos[(o.file, o.line, o.col)] = o
     discs = []
     nq = nnt = 0
+    fail_by_tok = {}
     for idx, o in enumerate(r.occs):
         if o.role not in roles or o.ent.kind == "construct":
             continue
@@ -118,7 +119,15 @@ def check_program(ctx, prog, layout, offsets, scratch, roles=QUERY_ROLES):
                 priv = oe.scope is not None and oe.scope.kind == "module" and (oe.vis == "private" or (oe.vis is None and oe.scope.default_private)) \
                     and (o.scope is None or oe.scope.unit() is not o.scope.unit())
                 outcome = "wrong:PRIVATE-entity-of-another-module" if priv else f"wrong:other-entity-same-spelling({oe.kind})"
+                if not priv and o.scope is not None and fws.leak_through_private_module(o.scope, oe):
+                    outcome = "wrong:entity-leaked-through-a-default-PRIVATE-module"
         label = f"def:{o.role}:{o.ent.kind}:via-{bp}:{outcome}"
+        if outcome == "wrong:entity-leaked-through-a-default-PRIVATE-module":
+            label = "def:" + outcome
+        if o.role == "member" and o.tok_i >= 2 and o.stmt.toks[o.tok_i - 1] == "%" and (id(o.stmt), o.tok_i - 2) in fail_by_tok:
+            # the base of this % chain was already bound wrongly: same root cause, same signature
+            label = fail_by_tok[(id(o.stmt), o.tok_i - 2)]
+        fail_by_tok[(id(o.stmt), o.tok_i)] = label
         if o.role == "remote":
             # one root cause: the name after '=>' in a USE rename clause is looked up as an ordinary name
             # of the current scope instead of in the named module
